@@ -453,13 +453,43 @@ pub fn one(ctx: &mut Ctx, c: &Case) -> bool {
     true
 }
 
+/// one case node used two or three times behind different witness selectors:
+/// `comp (comp (pair sel1 iden) K) (comp (pair sel2 iden) K)` with `K = case s t`
+fn shared_case_plan(ctx: &mut Ctx, cfg: GenCfg, depth: usize) -> Plan {
+    let uses = 2 + ctx.rng.below(2) as usize;
+    let x = gen::gen_t(&mut ctx.rng, 2);
+    let y = gen::gen_t(&mut ctx.rng, 2);
+    let mut g = gen::PlanGen::new(&mut ctx.rng, cfg);
+    let s = g.gen(&T::prod(x.clone(), T::One), &T::One, depth);
+    let t = g.gen(&T::prod(y.clone(), T::One), &T::One, depth);
+    g.nodes.push(PNode::Case(s, t));
+    let k = g.nodes.len() - 1;
+    let mut root = None;
+    for _ in 0..uses {
+        let sel = g.witness_of(&T::sum(x.clone(), y.clone()));
+        g.nodes.push(PNode::Iden);
+        let id = g.nodes.len() - 1;
+        g.nodes.push(PNode::Pair(sel, id));
+        g.nodes.push(PNode::Comp(id + 1, k));
+        let c = id + 2;
+        root = Some(match root {
+            None => c,
+            Some(r) => {
+                g.nodes.push(PNode::Comp(r, c));
+                c + 1
+            }
+        });
+    }
+    g.finish()
+}
+
 pub fn gen_case(ctx: &mut Ctx, it: u64) -> Option<Case> {
     let depth = 2 + (it % 6) as usize;
-    let mut cfg = GenCfg { fail: false, jets: it % 4 == 0, pin_witness: it % 3 != 0, share_16: if it % 2 == 0 { 8 } else { 4 }, ..GenCfg::default() };
+    let mut cfg = GenCfg { fail: false, jets: it % 4 == 0, pin_witness: it % 3 != 0, share_16: if it % 2 == 0 { 8 } else { 4 }, words: it % 3 == 0, ..GenCfg::default() };
     if cfg.jets {
         cfg.jet_pool = progs::simple_jets();
     }
-    let plan = gen::gen_program(&mut ctx.rng, cfg, depth);
+    let plan = if it % 5 == 0 { shared_case_plan(ctx, cfg, depth.min(4)) } else { gen::gen_program(&mut ctx.rng, cfg, depth) };
     if plan.nodes.len() > 120 {
         ctx.count("generator:too-large");
         return None;
@@ -495,8 +525,16 @@ pub fn replay(ctx: &mut Ctx, case: &str) {
     }
 }
 
+/// the smallest program found on which `prune` leaves the typing constraints of a dropped branch
+/// in force (known finding `pruned-types-not-principal`): the shared `unit` node is also the end of
+/// `comp word unit` inside the right branch of the case, which is never taken
+pub const NON_PRINCIPAL_CASE: &str = "prune 10 unit wit wit pair,1,2 word,1,01 comp,4,0 unit comp,6,5 case,0,7 comp,3,8 W:1:00 W:2:1 E:0";
+
 pub fn run(ctx: &mut Ctx) {
-    let n = ctx.scale(1500, 40_000);
+    if let Some(c) = parse_case(NON_PRINCIPAL_CASE) {
+        one(ctx, &c);
+    }
+    let n = ctx.scale(1000, 20_000);
     let mut done = 0;
     let mut it = 0u64;
     while done < n && it < 30 * n {
